@@ -43,7 +43,7 @@ PATCH_INPUTS = [([{"op": "add", "path": "/z", "value": 1}], "ok"), ([{"op": "rem
                 ([{"op": "add", "path": "x", "value": 1}], "patch"),
                 ([{"op": "replace", "path": "/\\u00e9", "value": "changed"}], "ok"), ([{"op": "replace", "path": "/s%20t", "value": "changed"}], "ok"),
                 ([{"op": "test", "path": "/\\u00e9", "value": "literal"}], "ok")]     # flag-sensitive: --no-unicode-escape / -u decide which member is meant
-DOC_KINDS = ["valid", "malformed", "undecodable", "bom", "utf16", "nonfinite", "word", "two-values", "open-string", "empty"]       # the last two: valid JSON the library decodes from bytes (BOM, UTF-16)
+DOC_KINDS = ["valid", "malformed", "undecodable", "bom", "utf16", "nonfinite", "word", "two-values", "open-string", "empty", "string-json", "string-plain"]       # the last two: valid JSON the library decodes from bytes (BOM, UTF-16)
 
 
 def gen(ctx):
@@ -122,6 +122,7 @@ def evaluate(ctx, cases):
     try:
         docs = {"valid": json.dumps(DOC).encode(), "malformed": b'{"a": [1, 2', "undecodable": b"\xff\xfe\xff",
                 "word": b"nope", "two-values": b"1 2", "open-string": b'"unterminated', "empty": b"",      # not JSON, and without any bracket
+                "string-json": json.dumps(json.dumps(DOC)).encode(), "string-plain": b'"a[0] {x}"',      # valid documents whose top-level value is a string (one that holds JSON text, one that does not)
                 "nonfinite": json.dumps({**DOC, "a": [1e999, -1e999, {"b": float("nan")}], "k": 1e999}).encode(),      # Infinity / NaN, as Python's json reads and writes them
                 "bom": b"\xef\xbb\xbf" + json.dumps(DOC, ensure_ascii=False).encode("utf-8"), "utf16": json.dumps(DOC, ensure_ascii=False).encode("utf-16")}
         for kname, data in docs.items():
